@@ -903,6 +903,17 @@ func exImportedElementGraphs() []*exGraph {
 				"C": m{"type": "array", "items": m{"$ref": loc + "#/definitions/other"}}, "name": m{"type": "integer"}}}
 		out = append(out, exFromGeneric(m{"file:///q/root.json": root, loc: types}, "file:///q/root.json"))
 	}
+	// names that differ by letter case only, one reached through the other (JSON pointers are case-sensitive: no cycle here)
+	{
+		root := m{"swagger": "2.0", "info": m{"title": "root", "version": "1"},
+			"definitions": m{"Item": m{"type": "object", "description": "Item", "properties": m{"i": m{"$ref": "#/definitions/item"}}}, "item": m{"type": "string", "description": "item"},
+				"order": m{"type": "array", "items": m{"$ref": "#/definitions/Item"}}},
+			"parameters": m{"pageSize": m{"$ref": "#/parameters/Limit"}, "Limit": m{"$ref": "#/parameters/limit"}, "limit": m{"name": "limit", "in": "query", "type": "integer"},
+				"newOrder": m{"name": "o", "in": "body", "schema": m{"$ref": "#/definitions/order"}}},
+			"responses": m{"notFound": m{"$ref": "#/responses/Error"}, "Error": m{"$ref": "#/responses/error"}, "error": m{"description": "error", "schema": m{"$ref": "#/definitions/Item"}}},
+			"paths":     m{"/o": m{"get": m{"parameters": []interface{}{m{"$ref": "#/parameters/pageSize"}}, "responses": m{"404": m{"$ref": "#/responses/notFound"}}}}}}
+		out = append(out, exFromGeneric(m{"file:///cv/root.json": root}, "file:///cv/root.json"))
+	}
 	// documents used both by the sections walked first (definitions, shared parameters, shared responses) and under paths: one
 	// expansion, one request each
 	{
